@@ -1,6 +1,6 @@
 From Coq Require Import ExtrOcamlBasic NArith List.
 From LLRP Require Import Codec.Schema Codec.Encode Codec.Decode Codec.SchemaTable Codec.Wf Codec.WfBool.
-From LLRP Require Import Codec.Json Codec.JsonTable.
+From LLRP Require Import Codec.Json Codec.JsonTable Codec.Readings.
 Extraction Language OCaml.
 Extraction "model.ml" llrp_table enc encode fits wfvb decode N.of_nat N.to_nat
-  llrp_jtable to_json of_json json_roundtrip_of text_ok.
+  llrp_jtable to_json of_json json_roundtrip_of text_ok merge_into.
